@@ -70,8 +70,33 @@ def perturbations(rng, s, C, sks, ms, pks, sigs):
     return out
 
 
+def same_message_scenarios(rng, s):
+    """(tag, pks, msgs, aggregate, expected): repeated messages (valid in AUG/POP, refused in BASIC), count mismatches that
+    only differ in repeated messages, and signer pairs whose keys cancel (sk, r - sk)"""
+    C = suite_cls(s)
+    sks = [rng.randrange(1, O.BLS_R) for _ in range(3)]
+    m = b"same message"
+    pks = [pk_of(k) for k in sks]
+    agg = C.Aggregate([C.Sign(k, m) for k in sks])
+    ok_rep = s != "basic"
+    out = [("repeated-msgs", pks, [m, m, m], agg, ok_rep),
+           ("repeated-msgs-one-short", pks, [m, m], agg, False),
+           ("repeated-msgs-one-msg", pks, [m], agg, False),
+           ("repeated-msgs-one-extra", pks, [m, m, m, m], agg, False),
+           ("repeated-msgs-key-short", pks[:2], [m, m, m], agg, False)]
+    a = rng.randrange(1, O.BLS_R)
+    cancel = [pk_of(a), pk_of(O.BLS_R - a)]
+    agg2 = C.Aggregate([C.Sign(a, m), C.Sign(O.BLS_R - a, m)])
+    # in POP/BASIC the two signatures on the same message cancel: the honest aggregate is the identity signature
+    out.append(("cancelling-keys", cancel, [m, m], agg2, ok_rep))
+    return out
+
+
 def cases(rng, tier):
     cs = []
+    for s in SUITES:
+        for tag, p, m, a, _ in same_message_scenarios(rng, s):
+            cs.append(Case("bls.AggregateVerify", [s, tbl(p), tbl(m), tb(a)], tags=(tag,)))
     sizes = [1, 2, 3] if tier == "quick" else [1, 2, 3, 4, 8, 16, 32]
     for s in SUITES:
         for n in (sizes if tier == "thorough" else [rng.choice(sizes)]):
@@ -106,7 +131,25 @@ def cases(rng, tier):
     cs.append(Case("bls.AggregatePKs", [tbl(pks)]))
     sk0 = rng.randrange(1, O.BLS_R)
     cs.append(Case("bls.FastAggregateVerify", [tbl([pk_of(sk0), pk_of(O.BLS_R - sk0)]), tb(m), tb(enc_g2(None))]))
+    for tag, p, mm, a, _ in torsion_cancel_scenarios(rng):
+        cs.append(Case("bls.FastAggregateVerify", [tbl(p), tb(mm), tb(a)], tags=(tag,)))
     return cs
+
+
+def torsion_cancel_scenarios(rng):
+    """keys OUTSIDE the subgroup whose cofactor components cancel: pk1 = a*G + T, pk2 = b*G - T (each invalid on its own);
+    the aggregate key (a+b)*G is valid and the signature of a+b verifies against it — must still be refused"""
+    from props.blsutil import enc_g1
+    from py_ecc.bls import G2ProofOfPossession as POP
+    a, b = rng.randrange(1, O.BLS_R), rng.randrange(1, O.BLS_R)
+    m = b"shared message"
+    out = []
+    for T in (O.torsion_g1(rng), (O.Fp(0, O.BLS_P), O.Fp(2, O.BLS_P))):
+        pk1 = enc_g1(O.aff_add(O.g1(a), T))
+        pk2 = enc_g1(O.aff_add(O.g1(b), O.aff_neg(T)))
+        sig = POP.Sign((a + b) % O.BLS_R or 1, m)
+        out.append(("torsion-cancelling-keys", [pk1, pk2], m, sig, False))
+    return out
 
 
 def aggregate_pred(sigs, perm, split):
@@ -178,7 +221,13 @@ def predicates(rng, tier, only=None):
                 perts = perts[:1] + rng.sample(perts[1:], 6)
             for tag, p, m, a, want in perts:
                 ps.append(Pred("aggregate-verify", aggverify_pred, (s, tag, p, m, a, want)))
+    for s in SUITES:
+        for tag, p, m, a, want in same_message_scenarios(rng, s):
+            ps.append(Pred("aggregate-verify", aggverify_pred, (s, tag, p, m, a, want)))
     C, sks, ms, pks, sigs = scenario(rng, "basic", 4 if tier == "quick" else 9)
+    # Aggregate with the SAME signature repeated: the sum counts multiplicities
+    ps.append(Pred("aggregate-sum", aggregate_pred, ([sigs[0], sigs[0], sigs[1]], [2, 0, 1], 1)))
+    ps.append(Pred("aggregate-sum", aggregate_pred, ([sigs[0], sigs[0]], [1, 0], 1)))
     perms = list(itertools.permutations(range(len(sigs)))) if len(sigs) <= 4 else [tuple(rng.sample(range(len(sigs)), len(sigs))) for _ in range(30)]
     for perm in (rng.sample(perms, 4) if tier == "quick" else perms[:60]):
         ps.append(Pred("aggregate-sum", aggregate_pred, (sigs, list(perm), rng.randrange(0, len(sigs)))))
@@ -195,6 +244,8 @@ def predicates(rng, tier, only=None):
                                 ("substitute", pks[:-1] + [other], m, agg, False), ("empty", [], m, agg, False), ("other-msg", pks, m + b"x", agg, False),
                                 ("permuted", list(reversed(pks)), m, agg, True), ("altered", pks, m, flip(agg, rng.randrange(768)), False),
                                 ("invalid-key", pks[:-1] + [b"\x01" * 48], m, agg, False)]:
+        ps.append(Pred("fast-aggregate-verify", fast_pred, (tag, p, mm, a, want)))
+    for tag, p, mm, a, want in torsion_cancel_scenarios(rng):
         ps.append(Pred("fast-aggregate-verify", fast_pred, (tag, p, mm, a, want)))
     if only:
         ps = [p for p in ps if p.name == only]
